@@ -1163,7 +1163,9 @@ func (r resolverQuery) esmPackageTargetResolve(
 
 		// If subpath split on "/" or "\" contains any ".", ".." or "node_modules"
 		// segments, throw an Invalid Module Specifier error.
-		if invalidSegment := findInvalidSegment(subpath); invalidSegment != "" {
+		// Note: Unlike for the target above, every segment of the subpath must be
+		// checked, including the first one.
+		if invalidSegment := findInvalidSegment("./" + subpath); invalidSegment != "" {
 			if r.debugLogs != nil {
 				r.debugLogs.addNote(fmt.Sprintf("The path %q is invalid because it contains invalid segment %q", subpath, invalidSegment))
 			}
